@@ -5,6 +5,7 @@ import (
 
 	"github.com/antlr4-go/antlr/v4"
 	gen "github.com/nyaruka/goflow/antlr/gen/contactql"
+	"github.com/nyaruka/goflow/envs"
 )
 
 type verifErrCounter struct {
@@ -61,5 +62,66 @@ func VerifSelftest_LexSTRING() string {
 		return e
 	}
 	fmt.Printf("VERIF-SELFTEST LexSTRING: %d strings agree\n", n)
+	return ""
+}
+
+// VerifSelftest_QueryParser compares the ContactQL parser model with the
+// generated parser natively: every sequence of ≤ 4 tokens over a vocabulary
+// covering every lexer rule and their overlaps (keywords as prefixes of
+// names, dotted and hyphenated text, unterminated strings, an ERROR
+// character), plus spellings without spaces: same accept/reject and, when
+// accepted, the same query (String()).
+func VerifSelftest_QueryParser() string {
+	env := envs.NewBuilder().Build()
+	res := verifResolver()
+	vocab := []string{"name", "age", "fields.age", "twitter", "=", "!=", "~", ">=", "<", "has", "is", "and", "AND", "or", "(", ")",
+		`"bob"`, `"a\"b"`, "bob", "12", "+12", "a.b.c", "x-y", "$", "android", "hash", "orange", `"`}
+	n, accepted := 0, 0
+	check := func(q string) string {
+		n++
+		real, rerr := ParseQuery(env, q, res)
+		model, merr := verifParseQuery(env, q, res)
+		if (rerr == nil) != (merr == nil) {
+			return fmt.Sprintf("query parser model and generated parser disagree on accepting %q: real err=%v model err=%v", q, rerr, merr)
+		}
+		if rerr == nil {
+			accepted++
+			if real.String() != model.String() {
+				return fmt.Sprintf("query parser model and generated parser read %q differently: real %q model %q", q, real.String(), model.String())
+			}
+		}
+		return ""
+	}
+	var rec func(prefix string, depth int) string
+	rec = func(prefix string, depth int) string {
+		if prefix != "" {
+			if e := check(prefix); e != "" {
+				return e
+			}
+		}
+		if depth == 0 {
+			return ""
+		}
+		for _, t := range vocab {
+			next := t
+			if prefix != "" {
+				next = prefix + " " + t
+			}
+			if e := rec(next, depth-1); e != "" {
+				return e
+			}
+		}
+		return ""
+	}
+	if e := rec("", 4); e != "" {
+		return e
+	}
+	for _, q := range []string{"name=bob", `name="x"or age<3`, "(name=bob)", "name=bob(age=3)", "age>=12and name~x", "name = bob and (age > 3 or age < 1) twitter = x",
+		"bob jim or name ~ x", "name has bob", "NAME IS x", "a or b and c d", `name = "a\\" OR language = "eng"`, "fields.age>1 AND urns.twitter=bob", "name=bob)", "(name=bob", "= bob", "name = ", "and", ""} {
+		if e := check(q); e != "" {
+			return e
+		}
+	}
+	fmt.Printf("VERIF-SELFTEST QueryParser: %d queries agree (%d accepted)\n", n, accepted)
 	return ""
 }
